@@ -403,7 +403,20 @@ def call_count_findings(case, max_findings=3):
                 sampler.run(op[1])
                 made = model.ncalls - n0
                 want = op[1] * per_iter
-                if (not has_comp and made != want) or (has_comp and made < want):
+                # componentwise scaling: one documented virtual evaluation per adapted parameter on every
+                # iteration in which the proposal is due and adapting (1 < dk < adaptation_duration)
+                it_before = sampler.chains[0].iteration - op[1]
+                for fam, names, kw in case.props:
+                    if not kw.get('componentwise'):
+                        continue
+                    k_ = kw.get('jump_interval', 1)
+                    T_ = kw.get('window')
+                    st_ = kw.get('start_step', 1)
+                    for i in range(it_before + 1, it_before + op[1] + 1):
+                        dk = (i - 1) // k_ - st_ + 1
+                        if _due_by_statement(i, k_, T_, True, st_) and 1 < dk < T_:
+                            want += len(names) * per_iter
+                if made != want:
                     bad('run-calls', 'run(%d) made %d model calls, expected %d' % (op[1], made, want),
                         {'nchains': case.nchains, 'nlevels': nlev})
                 for ev in cap.events:
@@ -1054,3 +1067,57 @@ def ladder_state_roundtrip_findings(seed, n=6, max_findings=2):
                             % ([float(x) for x in ch.betas], [float(l.beta) for l in ch.chains]), {'betas': betas}))
                 break
     return out, done
+
+
+def pt_snapshot_findings(seed, n=6, max_findings=3):
+    """C16 on parallel-tempered samplers incl. dynamically annealed ladders (complements
+    harness/alias.py): a state object is unchanged by loading it — into one sampler or into
+    several — and by running the samplers loaded from it; every sampler loaded from it behaves
+    like a sampler that alone holds (a serialised copy of) that state."""
+    rng = random.Random(seed)
+    out = []
+    nobj = 0
+
+    def bad(key, text, case):
+        if len(out) < max_findings and not any(k == key for k, _, _ in out):
+            out.append((key, text, {'case': dict(case.describe(), ops=[])}))
+    for i in range(n):
+        c = plumbing.gen_case(rng, 'pt-snap%d' % i, kinds=('pt',), allow_saveload=False, allow_dynamic=True,
+                              ntemps_choices=(3, 4), window_choices=[5, 20])
+        if i % 2 == 0:
+            c.dynamic = True
+            c.betas = sorted(c.betas, reverse=True)
+        params = [p[0] for p in c.params]
+        src = plumbing.build_sampler(c, c.seed, plumbing.make_model(c))
+        src.start_position = plumbing.start_positions(c)
+        src.run(rng.randint(3, 8))
+        st = src.state
+        dig = _state_digest(st)
+        frozen = pickle.dumps(st)
+        nobj += 1
+        # reference: a sampler that alone holds a serialised copy of the state
+        ref = plumbing.build_sampler(c, c.seed + 1, plumbing.make_model(c))
+        ref.set_state(pickle.loads(frozen))
+        ref.run(5)
+        want = _hist(ref, params)
+        loaded = []
+        for j in range(3):
+            t = plumbing.build_sampler(c, c.seed + 10 + j, plumbing.make_model(c))
+            t.set_state(st)                 # the SAME object, no serialisation
+            if _state_digest(st) != dig:
+                bad('pt-snapshot-changed-by-load', 'loading a state object into sampler #%d changed the object' % (j + 1), c)
+            loaded.append(t)
+        src.run(4)
+        if _state_digest(st) != dig:
+            bad('pt-snapshot-changed-by-source', 'a state object changed while its source sampler ran on', c)
+        order = list(range(3))
+        rng.shuffle(order)
+        for j in order:
+            loaded[j].run(5)
+            if _state_digest(st) != dig:
+                bad('pt-snapshot-changed-by-run', 'a state object changed while a sampler loaded from it ran', c)
+        for j in range(3):
+            if _hist(loaded[j], params) != want:
+                bad('pt-coupled-by-state', 'sampler #%d set from a shared state object does not evolve like a sampler that '
+                    'alone holds that state' % (j + 1), c)
+    return out, nobj
